@@ -22,9 +22,13 @@ RULE = (
     "read cases (~88%): a data file of 1-7 rows x 1-6 $INPUT columns rendered item by item from the documented "
     "lexical forms (comma/space/TAB separators with blanks, NULL forms, Fortran numbers, 24 character items, "
     "comment/header lines per IGNORE regime, short rows, fewer file columns than $INPUT), $INPUT with "
-    "DROP/SKIP/synonyms, NULL=c, 0-3 IGNORE/ACCEPT filters; strata: A (no listed finding), E:<construct> (exactly "
-    "one construct for which the rules say ERROR), B:<construct> (exactly one construct with a listed finding). "
-    "write/read cases (~12%): random numeric frame -> set_dataset -> write_model/write_csv -> read_model. "
+    "DROP/SKIP/synonyms, NULL=c, 0-3 IGNORE/ACCEPT filters (values drawn from the column's items, order-critical "
+    "lists included); strata: A 60% (no listed finding), E:<construct> 16% (exactly one construct for which the "
+    "rules say ERROR), B:<construct> 24% (exactly one construct with a listed finding, attributed by re-running "
+    "the case with the construct replaced by its stratum-A equivalent). "
+    "write/read cases (~12%): random numeric frame -> set_dataset on pheno / a $PRED model whose $INPUT/$DATA carry "
+    "synonyms, NULL=, IGNORE=c and filters (80% stratum A, 20% B: dropped columns or several $INPUT records in the "
+    "old code) -> write_model/write_csv -> read_model. "
     "distinct by (file text, $INPUT text, $DATA options) resp. frame content; non-trivial: a read case judged by "
     "the reference with >= 2 data rows and >= 2 of {mixed separators or blanks, NULL form, Fortran form, "
     "DROP/synonym, filter, comment/header line, padding, ERROR construct}; a write/read case with >= 2 rows and "
